@@ -38,18 +38,54 @@ ERR_REASONS = ("Wait", "Failure")
 
 # --------------------------------------------------------------------------- cases
 
+MUTABLE_MODES = ["create", "create", "patch", "patch", "recreate", "match-ok", "get-ok", "get-retry"]
+
+
+def mutable_sites(case):
+    """Function ids that gen_wf allows to mutate: evaluated at most once per distinct resource name in a pass (not in
+    a sub-workflow that runs under a forEach; a forEach over them names the resource after the item)"""
+    by_name = {w["name"]: w for w in case["defs"]}
+    parent = {}
+    for w in case["defs"]:
+        for st in w["steps"]:
+            lg = st["logic"]
+            for t in ([lg["ref"]] if "ref" in lg else [t for _, t in lg["switch"]["cases"]]):
+                if "wf" in t:
+                    parent[t["wf"]] = (w["name"], st)
+
+    def shared(name):
+        if name not in parent:
+            return False
+        pw, pst = parent[name]
+        return bool(pst.get("forEach")) or shared(pw)
+
+    out = set()
+    for w in case["defs"]:
+        for st in w["steps"]:
+            lg = st["logic"]
+            for t in ([lg["ref"]] if "ref" in lg else [t for _, t in lg["switch"]["cases"]]):
+                f = case["fns"].get(t.get("fn"))
+                if f and f.get("rf") and not f["rf"]["pre"]:
+                    if not shared(w["name"]) and not (st.get("forEach") and f["rf"]["nameKey"] is None):
+                        out.add(t["fn"])
+    return out
+
+
 def gen_case(r):
-    """ResourceFunction-heavy workflows, every step observable (condition C<label>, state), few planted errors;
-    some `patch` sites become delete-to-recreate ones"""
+    """ResourceFunction-heavy workflows, every step observable (condition C<label>, state), few planted errors.
+    Sites that may mutate are re-drawn towards create / patch / delete-to-recreate so that POST, PATCH and DELETE
+    calls are there to be hit."""
     case = gen_wf.gen_case(
         r, n=r.choice([1, 2, 3, 3, 4, 4, 5, 6, 8]), mode="obs", rf_prob=r.choice([0.7, 0.85, 1.0]),
         err=r.choice([0.0, 0.0, 0.3]), p_ok=r.choice([0.8, 0.9, 1.0]), p_foreach=r.choice([0.2, 0.35]),
         p_sub=r.choice([0.08, 0.2]))
-    for f in case["fns"].values():
-        rf = f.get("rf")
-        if rf and rf["mode"] == "patch" and r.random() < 0.3:
-            rf["mode"] = "recreate"
-            rf["calls"] = ["GET", "DELETE"]
+    for fid in sorted(mutable_sites(case)):
+        f = case["fns"][fid]
+        if r.random() < 0.8:
+            mode = r.choice(MUTABLE_MODES)
+            cls, calls, _ = gen_wf.RF_MODES[mode]
+            f["rf"]["mode"], f["rf"]["calls"] = mode, list(calls)
+            f["c"], f["d"] = cls, (gen_wf.LOAD_RETRY if mode == "get-retry" else r.choice([3, 11, 45]))
     return case
 
 
@@ -311,35 +347,49 @@ class Recovery:
         return run_pass(self.prep, objects)
 
     def fixpoint(self, objects):
-        """(objects, result view, passes needed) at quiescence, or (None, why, n)"""
+        """(objects, result view, passes used) once a fault-free pass changes nothing any more — the Result of a
+        pass is a function of the cluster it starts from, so that pass's Result is the final one — or (None, why, n)"""
         key = snap(objects)
         if key in self.memo:
             return self.memo[key]
         trail = [key]
         cur = objects
-        prev_view = None
         out = None
         for n in range(1, self.bound + 1):
             o = self.clean_pass(cur)
             if o.get("raised") or "overall" not in o:
                 out = (None, f"fault-free pass raised {o.get('raised')}", n)
                 break
-            view = json.dumps(wf_run.result_view(o), sort_keys=True, default=str)
             nxt = o["cluster"].objects
             k = snap(nxt)
-            if k == trail[-1] and view == prev_view:
-                out = (nxt, view, n - 1)
+            if k == trail[-1]:
+                out = (nxt, json.dumps(wf_run.result_view(o), sort_keys=True, default=str), n)
                 break
             if k in self.memo:
                 m = self.memo[k]
-                out = (m[0], m[1], n + m[2]) if m[0] is not None else m
+                out = (m[0], m[1], n + m[2])
                 break
             trail.append(k)
-            cur, prev_view = nxt, view
+            cur = nxt
         if out is None:
             out = (None, f"not quiescent after {self.bound} fault-free passes", self.bound)
-        for k in trail:
-            self.memo.setdefault(k, out)
+        for j, k in enumerate(trail):
+            self.memo.setdefault(k, (out[0], out[1], max(out[2] - j, 1)) if out[0] is not None else out)
+        return out
+
+    def trajectory(self, objects):
+        """the never-faulted run: [(objects before pass k, observation of pass k)] up to and including the pass that
+        changes nothing"""
+        out, cur = [], objects
+        for _ in range(self.bound):
+            o = self.clean_pass(cur)
+            out.append((cur, o))
+            if o.get("raised") or "overall" not in o:
+                return out
+            nxt = o["cluster"].objects
+            if snap(nxt) == snap(cur):
+                return out
+            cur = nxt
         return out
 
 
@@ -348,32 +398,40 @@ def size(case):
 
 
 def sweep_case(ck, drv, r, case, tier, tag, only=None):
-    """the whole fault sweep for one workflow; returns the list of (fault sequence, what) violations found"""
+    """the fault sweep for one workflow.  A fault sequence is {"start": k, "faults": [[i, kind], …]}: k fault-free
+    passes, then one faulty pass per entry (API-call index i of that pass fails with `kind`), then fault-free passes.
+    Returns the violations found as [(sequence, what)]."""
     prep = wf_run.prepare_case(case)
     if prep.problems:
         raise Infra(f"generated definitions rejected by prepare: {prep.problems[:2]}")
     limit = wf_run.step_timeout()
-    init = prep.objects
     rec = Recovery(prep, bound=2 * size(case) + 8)
-    base = run_pass(prep, init)
-    if base.get("raised"):
-        return [([], f"fault-free pass raised {base['raised']}")]
-    ref = rec.fixpoint(init)
-    if ref[0] is None:
-        return [([], f"never-faulted run: {ref[1]}")]
-    n_calls = len(base["log"])
+    traj = rec.trajectory(prep.objects)
+    last = traj[-1][1]
+    if last.get("raised") or "overall" not in last:
+        return [({"start": len(traj) - 1, "faults": []}, f"fault-free pass raised {last.get('raised')}")]
+    if snap(last["cluster"].objects) != snap(traj[-1][0]):
+        return [({"start": 0, "faults": []}, f"the never-faulted run is not quiescent after {len(traj)} passes")]
+    ref = (traj[-1][0], json.dumps(wf_run.result_view(last), sort_keys=True, default=str))
     ck.count(f"src:{tag}")
-    ck.count(f"calls:{min(n_calls, 20)}")
     ck.count("workflows")
-    ck.count("recovery-passes-max", 0)
-    points = [(i, k) for i in range(n_calls) for k in KINDS] if only is None else only
-    second = set()
-    if only is None and points:
-        n2 = 3 if tier == "quick" else 8
-        second = set(r.sample(range(len(points)), min(n2, len(points))))
+    ck.count(f"never-faulted-passes:{len(traj)}")
+    if only is None:
+        points = [(k, i, kind) for k, (_, b) in enumerate(traj) for i in range(len(b["log"])) for kind in KINDS]
+        cap = 90 if tier == "quick" else 240
+        ck.count("fault-points-available", len(points))
+        if len(points) > cap:
+            points = r.sample(points, cap)
+            ck.count("workflows-sampled")
+        else:
+            ck.count("workflows-all-fault-points")
+        seqs = [{"start": k, "faults": [[i, kind]]} for k, i, kind in points]
+        second = set(r.sample(range(len(seqs)), min(3 if tier == "quick" else 8, len(seqs))))
+    else:
+        seqs, second = list(only), set()
     violations, reqs, pending = [], [], []
 
-    def faulty(objects, i, kind, seq):
+    def faulty(objects, clean_after, i, kind, seq):
         obs = run_pass(prep, objects, faults={i: kind})
         ck.evaluated()
         site = fault_site(obs)
@@ -383,10 +441,9 @@ def sweep_case(ck, drv, r, case, tier, tag, only=None):
                        f"{'item' if site['path'] and site['path'][-1][1] is not None else 'step'}")
         else:
             ck.count("fault:not-reached")
-        clean = base["cluster"].objects if objects is init else rec.clean_pass(objects)["cluster"].objects
-        for what in oracle(case, objects, obs, clean, limit):
+        for what in oracle(case, objects, obs, clean_after, limit):
             violations.append((seq, what))
-        if not obs.get("raised"):
+        if not obs.get("raised") and "overall" in obs:
             for t in obs["task_tree"]:
                 ck.count(f"task:{t['state']}")
             reqs.append(request(case, objects, obs))
@@ -394,7 +451,7 @@ def sweep_case(ck, drv, r, case, tier, tag, only=None):
             ck.count("overall:" + obs["overall"]["c"])
             if obs["elapsed"] >= limit - EPS:
                 ck.count("passes-timed-out")
-        # recovery
+        # once the faults stop: same cluster contents and Result as the run that never saw a fault
         got = rec.fixpoint(obs["cluster"].objects)
         if got[0] is None:
             violations.append((seq, f"after the faults stop: {got[1]}"))
@@ -409,24 +466,27 @@ def sweep_case(ck, drv, r, case, tier, tag, only=None):
                                         "never-faulted run's"))
         return obs
 
-    for n, (i, kind) in enumerate(points):
-        if isinstance(i, list):            # a replayed fault sequence
-            objects = init
-            for j, (ii, kk) in enumerate(i):
-                o = faulty(objects, ii, kk, i[:j + 1])
-                objects = o["cluster"].objects
-            continue
-        o1 = faulty(init, i, kind, [[i, kind]])
-        if n in second and not o1.get("raised"):
-            objects = o1["cluster"].objects
+    for n, seq in enumerate(seqs):
+        k = min(seq.get("start", 0), len(traj) - 1)
+        objects = traj[k][0]
+        clean_after = traj[k][1]["cluster"].objects
+        obs = None
+        for j, (i, kind) in enumerate(seq["faults"]):
+            if j > 0:
+                clean_after = rec.clean_pass(objects)["cluster"].objects
+            obs = faulty(objects, clean_after, i, kind, {"start": k, "faults": seq["faults"][:j + 1]})
+            objects = obs["cluster"].objects
+        if n in second and obs is not None and not obs.get("raised"):
             probe = rec.clean_pass(objects)
             if probe["log"]:
                 i2, k2 = r.randrange(len(probe["log"])), r.choice(KINDS)
-                faulty(objects, i2, k2, [[i, kind], [i2, k2]])
+                faulty(objects, probe["cluster"].objects, i2, k2,
+                       {"start": k, "faults": seq["faults"] + [[i2, k2]]})
                 ck.count("two-pass-prefixes")
     # correspondence: every observed pass through the model (`drv is None`: the oracle alone, e.g. while shrinking)
-    reqs.append(request(case, init, base))
-    pending.append(([], base))
+    for k, (objects, b) in enumerate(traj):
+        reqs.append(request(case, objects, b))
+        pending.append(({"start": k, "faults": []}, b))
     for (seq, obs), ans in zip(pending, drv.ask(reqs) if drv is not None else []):
         diff = model_compare(case, obs, ans)
         ck.count("traces_validated_against_impl")
@@ -438,7 +498,8 @@ def sweep_case(ck, drv, r, case, tier, tag, only=None):
             break
     ck.count("fault-free-passes", rec.passes)
     if len(ck.cov["samples"]) < 3:
-        ck.sample({"case": c01.compact(case), "calls": base["log"], "fault_points": len(points)}, limit=3)
+        ck.sample({"case": c01.compact(case), "calls_per_never_faulted_pass": [b["log"] for _, b in traj],
+                   "fault_sequences": len(seqs)}, limit=3)
     return violations
 
 
@@ -449,14 +510,14 @@ def report(ck, case, found):
     def fails(c):
         try:
             return bool(sweep_case(Check("C09", "shrink"), None, rng("shrink"), c, "quick", "shrink",
-                                   only=[(seq, None)] if seq else None))
+                                   only=[seq] if seq and seq.get("faults") else None))
         except Exception:
             return False
 
     small = c01.shrink(case, fails) if len(ck.violations) < 2 else case
     if small is not case:
         again = sweep_case(Check("C09", "shrink"), None, rng("shrink"), small, "quick", "shrink",
-                           only=[(seq, None)] if seq else None)
+                           only=[seq] if seq and seq.get("faults") else None)
         if again:
             seq, what = again[0]
     ck.violate({"case": c01.compact(small), "faults": seq}, what)
@@ -492,21 +553,19 @@ def run(tier: str) -> int:
         for f in sorted((VERIF / "corpus" / "C09").glob("*.json")):
             data = json.load(open(f))
             case = data["case"]
-            only = [(data["faults"], None)] if data.get("faults") else None
+            only = [{"start": data.get("start", 0), "faults": data["faults"]}] if data.get("faults") else None
             found = sweep_case(ck, drv, r, case, tier, "corpus", only=only)
             ck.count("corpus")
             if found:
                 ck.violate({"case": c01.compact(case), "faults": found[0][0], "corpus": f.name}, found[0][1])
-        n = 30 if tier == "quick" else 500
+        n = 40 if tier == "quick" else 500
         for _ in range(n):
             for attempt in range(6):
                 case = gen_case(r)
                 prep = wf_run.prepare_case(case)
                 if prep.problems:
                     raise Infra(f"generated definitions rejected by prepare: {prep.problems[:2]}")
-                calls = len(run_pass(prep, prep.objects)["log"])
-                cap = 14 if tier == "quick" else 40
-                if 1 <= calls <= cap:
+                if run_pass(prep, prep.objects)["log"]:      # at least one API call to hit
                     break
             else:
                 continue
@@ -556,11 +615,12 @@ def replay(path: str) -> int:
     rc = 0
     items = data.get("violations") or [{"case": d.get("case")} for d in data.get("no_longer_checks", []) if d.get("case")]
     if not items and data.get("case"):
-        items = [{"case": {"case": data["case"], "faults": data.get("faults")}}]
+        items = [{"case": {"case": data["case"],
+                           "faults": {"start": data.get("start", 0), "faults": data.get("faults") or []}}}]
     for v in items:
         case, seq = v["case"]["case"], v["case"].get("faults")
         ck = Check("C09", "replay")
-        found = sweep_case(ck, None, rng("replay"), case, "quick", "replay", only=[(seq, None)] if seq else None)
+        found = sweep_case(ck, None, rng("replay"), case, "quick", "replay", only=[seq] if seq and seq.get("faults") else None)
         print("replay:", json.dumps({"steps": [s["label"] for s in gen_wf.main_steps(case)], "faults": seq}),
               "::", found[:2])
         rc = rc or (1 if found else 0)
